@@ -31,8 +31,9 @@ CASE_TIMEOUT = 120
 RULE = ("one case = one outer optimizer step on a real Plan (plus all inner optimizer runs of its nested plan). Masks: every "
         "mask with at least one free variable for V <= 4 in rotation (incl. no mask, all-free, single-free), sampled masks for "
         "V in 5..8; the mask is written as booleans, as 0/1 integers or as an integer / boolean ndarray. The step starts from the configured initial values or (40% of the runs without a scaler) from an explicit "
-        "variables= vector inside the bounds that differs from them also on the fixed positions; in 15% the same step object "
-        "has already run once on the same plan; in 60% of the scripted, non-nested explicit-start runs with a differing fixed "
+        "variables= vector inside the bounds that differs from them also on the fixed positions; in 22% the same step object "
+        "has already run once on the same plan (in 60% of these with the SAME configuration dict object in another state -- "
+        "complementary mask or other initial values -- that is changed back in place before the recorded run); in 60% of the scripted, non-nested explicit-start runs with a differing fixed "
         "entry ONE EnsembleOptimizer object is driven directly through two start() calls (configured initial values, then "
         "the explicit vector; the second run is the observation). Optimizer: scripted plug-in (1-6 requests: function, gradient, both, batches of "
         "1-3 rows, gradient-only requests at the point of an earlier function request or of the first/last row of an earlier "
@@ -209,14 +210,14 @@ def gen_one(rng, mask_hint=-1, force=None):
             "bts": bts, "mags": mags, "pts": pts, "rel_fixed": rel_fixed, "gs": gs, "samplers": sconfs, "nc": nc, "nobj": nobj,
             "scaler": scaler, "seed": rng.randint(1, 10 ** 6), "nested": None, "start": start,
             # the same step object has already run once (from the configured initial values) on the same plan
-            "warmup": force.get("warmup", rng.random() < 0.15),
+            "warmup": force.get("warmup", rng.random() < 0.22),
             # the scripted optimizer overwrites, in place, the arrays it was handed (initial values, returned functions
             # and gradients) and the request arrays it passed, as an optimizer using them as work space does
             "scribble": rng.random() < 0.4,
             # how the mask is written in the configuration: booleans, 0/1 integers (as read from JSON/YAML), or an ndarray of
             # either kind -- all of them denote the same mask
             "mask_repr": rng.choice(["bool", "bool", "int", "int", "ndarray_int", "ndarray_bool"]),
-            "direct": False}
+            "direct": False, "warmup_mutate": rng.random() < 0.6}
     # "direct": ONE EnsembleOptimizer object (public class of ropt.optimization) is started twice: first from the
     # configured initial values (unrecorded), then from the explicit start vector, whose fixed entries differ -- every
     # vector and result of the second run must carry the second start vector's fixed entries
@@ -568,11 +569,29 @@ def run_impl(case):  # noqa: C901, PLR0915
             if inner_plan is not None:
                 kw["nested_optimization"] = inner_plan
             if case.get("warmup"):
-                # the same step object runs once from the configured initial values; nothing of it is recorded
+                # the same step object runs once from the configured initial values; nothing of it is recorded.  In the
+                # "mutate" variant that first run sees the SAME dict object in another state (complementary mask, or other
+                # initial values); the dict is then changed back in place, as in alternating optimization over subsets
+                saved = None
+                if case.get("warmup_mutate"):
+                    v = outer_cfg["variables"]
+                    saved = (v.get("mask"), v["initial_values"])
+                    if case["mask"] is not None and any(case["mask"]) and not all(case["mask"]):
+                        v["mask"] = _mask_as([not m for m in case["mask"]], case.get("mask_repr", "bool"))
+                    else:
+                        v["initial_values"] = [lb if math.isfinite(lb) else ub if math.isfinite(ub) else x + 1.0
+                                               for x, lb, ub in zip(case["x0"], case["lbs"], case["ubs"])]
                 try:
                     outer.run_step(step, **kw)
                 except Exception:  # noqa: BLE001 - only the second run is the observation
                     pass
+                if saved is not None:
+                    v = outer_cfg["variables"]
+                    v["initial_values"] = saved[1]
+                    if saved[0] is None:
+                        v.pop("mask", None)
+                    else:
+                        v["mask"] = saved[0]
                 del runs[:], stack[:]
             if case.get("start") is not None:
                 kw["variables"] = np.array(case["start"], dtype=np.float64)
@@ -783,6 +802,7 @@ def features(case, obs):
             "start": "explicit" if case.get("start") is not None else "configured", "warmup": bool(case.get("warmup")),
             "mask_written_as": case.get("mask_repr", "bool") if mask is not None else "-",
             "one_optimizer_object_started_twice": bool(case.get("direct")),
+            "same_dict_mutated_between_runs": bool(case.get("warmup")) and bool(case.get("warmup_mutate")),
             "relative": RELATIVE in case.get("pts", []), "relative_on_fixed_infinite": case.get("rel_fixed") is not None,
             "rejected": _rejected(obs),
             "scribble": bool(case.get("scribble")) and o["kind"] == "scripted",
